@@ -3,6 +3,7 @@ package main
 import (
 	"fmt"
 	"go/types"
+	"strings"
 
 	"golang.org/x/tools/go/ssa"
 )
@@ -87,7 +88,13 @@ func (in *Interp) mergeResults(g *Term, r, acc []Value) []Value {
 
 func (in *Interp) invoke(fr *Frame, g *Term, recv *IfaceVal, method *types.Func, args []Value, site ssa.Instruction) []Value {
 	sig := method.Type().(*types.Signature)
-	in.abort(mkAnd(g, mkNot(recv.nonNil())), "panic", in.site(site), "method call on nil interface: "+method.Name())
+	nilKind, nilMsg := "panic", "method call on nil interface: "+method.Name()
+	if site != nil && site.Parent() != nil && site.Parent().Synthetic != "" && strings.Contains(site.Parent().String(), ".verif") {
+		// promoted-method wrapper of a harness stub type that embeds the interface and implements only part of it:
+		// the code under test called a method the stub does not model - the harness's gap, not a panic of the real code
+		nilKind, nilMsg = "unsupported", "harness stub does not implement "+method.Name()+" ("+site.Parent().String()+")"
+	}
+	in.abort(mkAnd(g, mkNot(recv.nonNil())), nilKind, in.site(site), nilMsg)
 	var res []Value
 	for i := len(recv.Alts) - 1; i >= 0; i-- {
 		a := recv.Alts[i]
